@@ -482,22 +482,24 @@ Proof.
         -- right. fold (duplicate_gen n k []). rewrite dup_by_count by (auto; intros; reflexivity).
            unfold by_count. destruct n as [|[|n]]; try lia. reflexivity.
         -- left. reflexivity.
-      * rewrite (distribute_values n k pd (t0 :: tr) vs' vs Hn (or_introl ltac:(discriminate)) Hc F).
+      * assert (Hne : t0 :: tr <> [] \/ pd <> None) by (left; discriminate).
+        rewrite (distribute_values n k pd (t0 :: tr) vs' vs Hn Hne Hc F).
         split; [|apply by_count_sized].
         unfold by_count. destruct vs as [|v [|w r]].
         -- apply Forall2_len in F. apply map_res_length in Hc. simpl in *. lia.
         -- simpl. reflexivity.
         -- destruct (Nat.eqb (List.length (v :: w :: r)) n); simpl; reflexivity.
-    + simpl. left. unfold distribute_gen, distribute.
-      assert (Hcol : collect_gen k pd (Some toks) = Err (Exit 2)).
+    + assert (Hcol : collect_gen k pd (Some toks) = Err (Exit 2)).
       { unfold collect_gen, collect. destruct toks as [|t0 tr]; [simpl in E; discriminate|].
         exact (toks_nodens k (t0 :: tr) Ht E). }
-      unfold collect_gen in Hcol. rewrite Hcol. reflexivity.
+      unfold collect_gen in Hcol.
+      split; [simpl; left|intros out]; unfold distribute_gen, distribute; rewrite Hcol; [reflexivity | discriminate].
     + destruct toks as [|t0 tr]; [simpl in E; discriminate|].
       destruct (toks_weak k (t0 :: tr) Ht) as [Hc|[vs' [vs [Hc F]]]].
       * split; [simpl; right; left|intros out]; unfold distribute_gen, distribute, collect;
           unfold convert_gen in Hc; rewrite Hc; [reflexivity | discriminate].
-      * rewrite (distribute_values n k pd (t0 :: tr) vs' vs Hn (or_introl ltac:(discriminate)) Hc F).
+      * assert (Hne : t0 :: tr <> [] \/ pd <> None) by (left; discriminate).
+        rewrite (distribute_values n k pd (t0 :: tr) vs' vs Hn Hne Hc F).
         split; [|apply by_count_sized]. simpl. unfold by_count. destruct vs as [|v [|w r]].
         -- destruct (Nat.eqb (List.length (@nil val)) n); [left; eexists; reflexivity | right; right; reflexivity].
         -- left. eexists. reflexivity.
@@ -509,4 +511,270 @@ Proof.
       split; [reflexivity|]. intros out H. injection H as <-. apply repeat_length.
     + assert (A : all_some (repeat (@None val) n) = None) by (destruct n; [lia | reflexivity]).
       rewrite A. split; [left; reflexivity | intros out; discriminate].
+Qed.
+
+(* ====================================================================== *)
+(* which wrapper survives the merge; order of the destinations             *)
+(* ====================================================================== *)
+Lemma sort_head_fold (key : string -> nat) d0 rest : forall acc,
+  (forall d, In d rest -> key d0 <= key d) ->
+  exists tl, fold_left (fun a x => ins_by key x a) rest (d0 :: acc) = d0 :: tl.
+Proof.
+  induction rest as [|x r IH]; intros acc H; simpl.
+  - exists acc. reflexivity.
+  - assert (Hx : key d0 <= key x) by (apply H; left; reflexivity).
+    destruct (Nat.ltb (key x) (key d0)) eqn:E; [apply Nat.ltb_lt in E; lia|].
+    apply IH. intros d Hd. apply H. right. exact Hd.
+Qed.
+
+Lemma sort_head (key : string -> nat) d0 rest :
+  (forall d, In d rest -> key d0 <= key d) -> exists tl, sort_by key (d0 :: rest) = d0 :: tl.
+Proof. intros H. unfold sort_by. simpl. apply sort_head_fold. exact H. Qed.
+
+Lemma merge_one acc d : ~ In d acc -> merge_dests MERGE_DEDUPES acc [d] = (acc ++ [d])%list.
+Proof.
+  intros H. unfold merge_dests. cbn [fold_left]. apply str_in_false in H. rewrite H, andb_false_r. reflexivity.
+Qed.
+
+Lemma merge_fold rest : forall acc, NoDup (acc ++ rest) ->
+  fold_left (fun a d => merge_dests MERGE_DEDUPES a [d]) rest acc = (acc ++ rest)%list.
+Proof.
+  induction rest as [|d r IH]; intros acc H; cbn [fold_left].
+  - now rewrite app_nil_r.
+  - rewrite merge_one.
+    + rewrite IH; rewrite <- app_assoc; [reflexivity | exact H].
+    + apply NoDup_remove_2 in H. intros Hin. apply H. apply in_or_app. left. exact Hin.
+Qed.
+
+(* the wrappers are merged into the first registered one, and the destinations keep the registration order,
+   provided the first registered wrapper is (one of) the least nested *)
+Theorem merge_order d0 rest :
+  NoDup (d0 :: rest) -> (forall d, In d rest -> level d0 <= level d) ->
+  fix_conflict_merge_gen (d0 :: rest) = Ok (d0 :: rest).
+Proof.
+  intros Hnd Hlv. unfold fix_conflict_merge_gen, fix_conflict_merge.
+  destruct bridge_merge as [-> [-> _]].
+  destruct (sort_head level d0 rest Hlv) as [tl ->]. cbn [hd].
+  assert (Hin : str_in d0 rest = false) by (apply str_in_false; inversion Hnd; assumption).
+  rewrite Hin. rewrite (merge_fold rest [d0] Hnd). reflexivity.
+Qed.
+
+(* without that proviso the statement is false of the model (and of the code: defect #20) *)
+Theorem merge_order_refuted :
+  exists dests, NoDup dests /\ fix_conflict_merge_gen dests = Err (Raise "ValueError").
+Proof.
+  exists ["t.a"; "t.b"; "top"]. split.
+  - apply str_nodupb_NoDup. vm_compute. reflexivity.
+  - vm_compute. reflexivity.
+Qed.
+
+(* ====================================================================== *)
+(* the whole pipeline on a layout                                          *)
+(* ====================================================================== *)
+Definition layout_ok (dests : list string) : Prop :=
+  match dests with
+  | [] => False
+  | d0 :: rest => NoDup dests /\ (forall d, In d rest -> level d0 <= level d)
+                  /\ (level d0 = 1 -> forall d, In d rest -> level d = 1)
+  end.
+
+Lemma observe_all first_top cd : forall dests out ext,
+  NoDup dests -> List.length out = List.length dests ->
+  (first_top = true -> forall d, In d dests -> level d = 1) ->
+  (forall d, In d dests -> assoc d ext = assoc d (combine dests out)) ->
+  map_res (fun d => observe first_top cd d (assoc d ext)) dests = Ok out.
+Proof.
+  induction dests as [|d r IH]; intros out ext Hnd Hlen Hlv Hext.
+  - destruct out; [reflexivity | discriminate].
+  - destruct out as [|o ro]; [discriminate|]. simpl.
+    rewrite (Hext d (or_introl eq_refl)). simpl. rewrite String.eqb_refl.
+    assert (Hobs : observe first_top cd d (Some o) = Ok o).
+    { unfold observe. destruct first_top; [|reflexivity].
+      rewrite (Hlv eq_refl d (or_introl eq_refl)). reflexivity. }
+    rewrite Hobs. inversion Hnd as [|x l Hnin Hnd']; subst.
+    rewrite (IH ro ext Hnd'); [reflexivity | simpl in Hlen; lia | |].
+    + intros Ht x Hx. apply (Hlv Ht). right. exact Hx.
+    + intros x Hx. rewrite (Hext x (or_intror Hx)). simpl.
+      destruct (String.eqb d x) eqn:E; [apply String.eqb_eq in E; subst; contradiction | reflexivity].
+Qed.
+
+(* run = distribute, once the layout is one where the first registered wrapper survives *)
+Lemma run_is_distribute dests k cd cli :
+  layout_ok dests ->
+  (level (hd "" dests) <> 1 -> cd <> None) ->
+  (level (hd "" dests) = 1 -> forall d, cd = Some d -> package_default_gen (List.length dests) k d = Ok (repeat d (List.length dests))) ->
+  sized (List.length dests) (distribute_gen (List.length dests) k (option_map (fun d => repeat d (List.length dests)) cd) cli) ->
+  run_gen dests k cd (repeat None (List.length dests)) cli =
+  distribute_gen (List.length dests) k (option_map (fun d => repeat d (List.length dests)) cd) cli.
+Proof.
+  intros Hl Hcd Hpk Hs. unfold run_gen, run.
+  destruct dests as [|d0 rest]; [contradiction|]. destruct Hl as [Hnd [Hlv Htop]].
+  fold (fix_conflict_merge_gen (d0 :: rest)). rewrite (merge_order d0 rest Hnd Hlv). cbn [bind hd].
+  cbn [hd] in Hcd, Hpk.
+  set (n := List.length (d0 :: rest)) in *.
+  assert (Hdo : bind (default_object (Nat.eqb (level d0) 1) n cd (repeat None n))
+                   (fun dobj => match dobj with
+                                | None => Ok None
+                                | Some d => bind (package_default PK_CHAIN n k d) (fun l => Ok (Some l))
+                                end) = Ok (option_map (fun d => repeat d n) cd)).
+  { unfold default_object. destruct (Nat.eqb (level d0) 1) eqn:E1.
+    - apply Nat.eqb_eq in E1. assert (Hr : repeat (@None val) n = None :: repeat None (n - 1)).
+      { unfold n. simpl. now rewrite Nat.sub_0_r. }
+      rewrite Hr. cbn [bind]. destruct cd as [d|]; [|reflexivity]. cbn [bind option_map].
+      fold (package_default_gen n k d). rewrite (Hpk E1 d eq_refl). reflexivity.
+    - apply Nat.eqb_neq in E1. destruct cd as [d|]; [|exfalso; apply (Hcd E1); reflexivity].
+      cbn [bind option_map]. fold (package_default_gen n k (VList (repeat d n))). rewrite package_perdest. reflexivity. }
+  destruct (default_object (Nat.eqb (level d0) 1) n cd (repeat None n)) as [dobj|e]; [|discriminate].
+  cbn [bind] in Hdo |- *. rewrite Hdo. cbn [bind].
+  fold (distribute_gen n k (option_map (fun d => repeat d n) cd) cli).
+  destruct (distribute_gen n k (option_map (fun d => repeat d n) cd) cli) as [out|e] eqn:Er; [|reflexivity]. cbn [bind].
+  apply observe_all.
+  - exact Hnd.
+  - apply Hs. reflexivity.
+  - intros Ht d Hd. apply Nat.eqb_eq in Ht. destruct Hd as [<-|Hd]; [exact Ht | apply (Htop Ht d Hd)].
+  - intros d _. reflexivity.
+Qed.
+
+(* a default of the field's own type *)
+Definition typed_default (k : kind) (d : val) : bool :=
+  match k, d with
+  | KInt, VInt _ | KFloat, VFloat _ _ _ | KStr, VStr _ | KBool, VBool _ | KEnum _, VEnum _
+  | KList _, VList _ | KTuple _ _, VTuple _ => true
+  | _, _ => false
+  end.
+
+Lemma typed_fixed k d : typed_default k d = true -> default_fixed k d.
+Proof. destruct k, d; try discriminate; intros _; split; try reflexivity; discriminate. Qed.
+
+Lemma typed_scalar_safe n k d : scalar_kind k = true -> typed_default k d = true -> default_safe n k d = true.
+Proof. destruct k, d; try discriminate; reflexivity. Qed.
+
+(* ----- the general statement: model meets spec whenever every token is related and the default is safe ----- *)
+Theorem run_meets dests k cd cli :
+  layout_ok dests -> 2 <= List.length dests ->
+  (level (hd "" dests) <> 1 -> cd <> None) ->
+  (forall d, cd = Some d -> typed_default k d = true) ->
+  (level (hd "" dests) = 1 -> forall d, cd = Some d -> default_safe (List.length dests) k d = true) ->
+  (forall toks, cli = Some toks -> Forall (tok_rel k) toks) ->
+  meets (spec_expect k (repeat cd (List.length dests)) cli)
+        (run_gen dests k cd (repeat None (List.length dests)) cli).
+Proof.
+  intros Hl Hn Hcd Hty Hsafe Htoks.
+  destruct (distribute_meets (List.length dests) k cd cli Hn (fun d E => typed_fixed k d (Hty d E)) Htoks) as [M S].
+  rewrite (run_is_distribute dests k cd cli Hl Hcd); [exact M | | exact S].
+  intros Ht d E. apply package_single. apply (Hsafe Ht d E).
+Qed.
+
+(* scalar kinds: no side condition on tokens or defaults *)
+Theorem scalar_meets_spec dests k cd cli :
+  layout_ok dests -> 2 <= List.length dests -> scalar_kind k = true ->
+  (level (hd "" dests) <> 1 -> cd <> None) ->
+  (forall d, cd = Some d -> typed_default k d = true) ->
+  meets (spec_expect k (repeat cd (List.length dests)) cli)
+        (run_gen dests k cd (repeat None (List.length dests)) cli).
+Proof.
+  intros Hl Hn Hk Hcd Hty. apply run_meets; try assumption.
+  - intros _ d E. apply typed_scalar_safe; [exact Hk | apply (Hty d E)].
+  - intros toks _. apply Forall_forall. intros t _. apply scalar_tok_rel. exact Hk.
+Qed.
+
+(* the count rule on the values that reached the action, for scalar kinds, any n >= 2, any number of values *)
+Theorem scalar_count_rule n k vals :
+  2 <= n -> scalar_kind k = true -> forallb scalar_val vals = true ->
+  duplicate_gen n k vals =
+  match vals with
+  | [v] => Ok (repeat v n)
+  | _ => if Nat.eqb (List.length vals) n then Ok vals else Err Inconsistent
+  end.
+Proof. intros Hn Hk Hs. apply (dup_by_count n k vals Hn). intros _. exact Hs. Qed.
+
+(* container kinds, full statement: every token list (inside the model's scope), every typed default *)
+Definition container_full_statement : Prop :=
+  forall dests k cd cli,
+    layout_ok dests -> 2 <= List.length dests -> scalar_kind k = false ->
+    (level (hd "" dests) <> 1 -> cd <> None) ->
+    (forall d, cd = Some d -> typed_default k d = true) ->
+    meets (spec_expect k (repeat cd (List.length dests)) cli)
+          (run_gen dests k cd (repeat None (List.length dests)) cli).
+
+Lemma layout_two_flat : layout_ok ["d0"; "d1"].
+Proof.
+  simpl. split; [apply str_nodupb_NoDup; reflexivity|]. split.
+  - intros d [<-|[]]. vm_compute. lia.
+  - intros _ d [<-|[]]. reflexivity.
+Qed.
+
+(* witness 1 (defect #4): a list default whose length equals n is dealt element-wise *)
+Definition w_dealt := run_gen ["d0"; "d1"] (KList EInt) (Some (VList [VInt 1; VInt 2])) [None; None] None.
+Lemma w_dealt_model : w_dealt = Ok [VInt 1; VInt 2].
+Proof. vm_compute. reflexivity. Qed.
+Lemma w_dealt_spec : spec_expect (KList EInt) [Some (VList [VInt 1; VInt 2]); Some (VList [VInt 1; VInt 2])] None
+                     = MustBe [VList [VInt 1; VInt 2]; VList [VInt 1; VInt 2]].
+Proof. vm_compute. reflexivity. Qed.
+
+(* witness 2 (defect #5): `--xs 7` puts the scalar 7 into a List[int] field *)
+Definition t7 := mktok "7" (Some (LInt 7)).
+Definition w_bare := run_gen ["d0"; "d1"] (KList EInt) (Some (VList [])) [None; None] (Some [t7]).
+Lemma w_bare_model : w_bare = Ok [VInt 7; VInt 7].
+Proof. vm_compute. reflexivity. Qed.
+Lemma w_bare_spec : spec_expect (KList EInt) [Some (VList []); Some (VList [])] (Some [t7]) = MustBe [VList [VInt 7]; VList [VInt 7]].
+Proof. vm_compute. reflexivity. Qed.
+
+(* witness 3 (defect #5): `--t 3 4` with n = 2 raises TypeError *)
+Definition t3 := mktok "3" (Some (LInt 3)).
+Definition t4 := mktok "4" (Some (LInt 4)).
+Definition w_type := run_gen ["d0"; "d1"] (KTuple EInt None) (Some (VTuple [])) [None; None] (Some [t3; t4]).
+Lemma w_type_model : w_type = Err (Raise "TypeError").
+Proof. vm_compute. reflexivity. Qed.
+Lemma w_type_spec : spec_expect (KTuple EInt None) [Some (VTuple []); Some (VTuple [])] (Some [t3; t4])
+                    = MustBe [VTuple [VInt 3]; VTuple [VInt 4]].
+Proof. vm_compute. reflexivity. Qed.
+
+(* witness 4 (defect #5): the arity of a merged fixed tuple is not checked *)
+Definition t345 := mktok "(3,4,5)" (Some (LSeq true [LInt 3; LInt 4; LInt 5])).
+Definition w_arity := run_gen ["d0"; "d1"] (KTuple EInt (Some 2)) (Some (VTuple [VInt 1; VInt 2])) [None; None] (Some [t345]).
+Lemma w_arity_model : w_arity = Ok [VTuple [VInt 3; VInt 4; VInt 5]; VTuple [VInt 3; VInt 4; VInt 5]].
+Proof. vm_compute. reflexivity. Qed.
+Lemma w_arity_spec : spec_expect (KTuple EInt (Some 2)) [Some (VTuple [VInt 1; VInt 2]); Some (VTuple [VInt 1; VInt 2])] (Some [t345])
+                     = MustReject.
+Proof. vm_compute. reflexivity. Qed.
+
+Theorem container_full_refuted : ~ container_full_statement.
+Proof.
+  intros H.
+  specialize (H ["d0"; "d1"] (KList EInt) (Some (VList [VInt 1; VInt 2])) None layout_two_flat (le_n 2) eq_refl).
+  assert (M : meets (MustBe [VList [VInt 1; VInt 2]; VList [VInt 1; VInt 2]]) (Ok [VInt 1; VInt 2])).
+  { rewrite <- w_dealt_spec, <- w_dealt_model. apply H.
+    - intros Hlv. exfalso. apply Hlv. reflexivity.
+    - intros d E. injection E as <-. reflexivity. }
+  simpl in M. discriminate.
+Qed.
+
+(* each of the four behaviours separately: what the model (= the code) does is not what the spec demands *)
+Theorem container_witnesses :
+  ~ meets (spec_expect (KList EInt) [Some (VList [VInt 1; VInt 2]); Some (VList [VInt 1; VInt 2])] None) w_dealt
+  /\ ~ meets (spec_expect (KList EInt) [Some (VList []); Some (VList [])] (Some [t7])) w_bare
+  /\ ~ meets (spec_expect (KTuple EInt None) [Some (VTuple []); Some (VTuple [])] (Some [t3; t4])) w_type
+  /\ ~ meets (spec_expect (KTuple EInt (Some 2)) [Some (VTuple [VInt 1; VInt 2]); Some (VTuple [VInt 1; VInt 2])] (Some [t345])) w_arity.
+Proof.
+  rewrite w_dealt_spec, w_dealt_model, w_bare_spec, w_bare_model, w_type_spec, w_type_model, w_arity_spec, w_arity_model.
+  simpl. repeat split; try (intros H; discriminate). intros [H|H]; discriminate.
+Qed.
+
+(* container kinds, partial statement: bracketed literals of the item type (right arity), default treated as one value *)
+Definition cli_bracketed (k : kind) (cli : option (list tok)) : bool :=
+  match cli with None => true | Some toks => forallb (tok_bracketed k) toks end.
+
+Theorem container_partial dests k cd cli :
+  layout_ok dests -> 2 <= List.length dests -> scalar_kind k = false ->
+  (level (hd "" dests) <> 1 -> cd <> None) ->
+  (forall d, cd = Some d -> typed_default k d = true) ->
+  (level (hd "" dests) = 1 -> forall d, cd = Some d -> default_safe (List.length dests) k d = true) ->
+  cli_bracketed k cli = true ->
+  meets (spec_expect k (repeat cd (List.length dests)) cli)
+        (run_gen dests k cd (repeat None (List.length dests)) cli).
+Proof.
+  intros Hl Hn Hk Hcd Hty Hsafe Hb. apply run_meets; try assumption.
+  intros toks ->. simpl in Hb. rewrite forallb_forall in Hb. apply Forall_forall.
+  intros t Ht. apply bracketed_tok_rel. apply Hb. exact Ht.
 Qed.
